@@ -239,28 +239,33 @@ package inputrc
 //@ func Parse
 //@   props C12
 //@   terminates
-//@   recursion_assumed $include nesting is bounded by maxIncludeDepth (do/post:include-capped is proved); that the nested parser's depth is p.depth+1 is read off New/withDepth, not proved
+//@   recursion_assumed $include nesting is bounded by maxIncludeDepth (do/post:include-capped is proved); that the nested parser's depth is p.depth+1 is read off New/withDepth (withDepth itself is proved to return a closure; what the closure assigns is not carried to Parse)
 //@   requires h != nil && all(k, 0, len(opts), opts[k] != nil)
 //@   assigns nbind(h), lastkeymap(h), lastseq(h), lastaction(h), lastmacro(h), nset(h), lastsetname(h), ndo(h)
 
 //@ func WithName
-//@   trusted returns a non-nil closure
+//@   props C12
+//@   terminates
 //@   assigns nothing
 //@   ensures result != nil
 //@ func WithApp
-//@   trusted returns a non-nil closure
+//@   props C12
+//@   terminates
 //@   assigns nothing
 //@   ensures result != nil
 //@ func WithTerm
-//@   trusted returns a non-nil closure
+//@   props C12
+//@   terminates
 //@   assigns nothing
 //@   ensures result != nil
 //@ func WithMode
-//@   trusted returns a non-nil closure
+//@   props C12
+//@   terminates
 //@   assigns nothing
 //@   ensures result != nil
 //@ func withDepth
-//@   trusted returns a non-nil closure
+//@   props C12
+//@   terminates
 //@   assigns nothing
 //@   ensures result != nil
 
@@ -306,7 +311,7 @@ package inputrc
 //@ func (*Parser).do
 //@   props C12 C13
 //@   terminates
-//@   recursion_assumed $include nesting is bounded by maxIncludeDepth (post:include-capped is proved); that the nested parser's depth is p.depth+1 is read off New/withDepth, not proved
+//@   recursion_assumed $include nesting is bounded by maxIncludeDepth (post:include-capped is proved); that the nested parser's depth is p.depth+1 is read off New/withDepth (withDepth itself is proved to return a closure; what the closure assigns is not carried to Parse)
 //@   requires pconds(p) && handler != nil
 //@   assigns p.conds, nbind(handler), lastkeymap(handler), lastseq(handler), lastaction(handler), lastmacro(handler), nset(handler), lastsetname(handler), ndo(handler)
 //@   ensures [conds-nonempty] p != nil && len(p.conds) >= 1
@@ -532,11 +537,13 @@ package inputrc
 //@   requires p0 != nil
 //@   assigns p0.all
 //@ func DefaultVars
-//@   trusted a map literal
+//@   props C01
+//@   terminates
 //@   assigns nothing
 //@   ensures result != nil && fresh(result)
 //@ func DefaultBinds
-//@   trusted a map literal of map literals
+//@   props C01
+//@   terminates
 //@   assigns nothing
 //@   ensures result != nil && fresh(result)
 //@ func NewDefaultConfig
